@@ -65,6 +65,29 @@ def gen_package(rng, nm=None, nap=None, nw=None, nfilt=None, positive=True):
                 nu=nus, aps=aps, seds=seds, filters=filters, cube_order=rng.choice(['incr', 'decr']))
 
 
+def own_grids(rng, pkg):
+    """per-file packages may hold SEDs on different frequency grids: give every SED after the first its own grid —
+    the shared one, one with the same length and end points but other interior points, or a shorter one"""
+    nus = pkg['nu']
+    for n in pkg['names'][1:]:
+        sd = pkg['seds'][n]
+        kind = rng.choice(['same', 'interior', 'interior', 'shorter'])
+        if kind == 'interior' and len(nus) >= 3:
+            mid = set()
+            while len(mid) < len(nus) - 2:
+                x = rng.dyadic(nus[0], nus[-1], 12)
+                if nus[0] < x < nus[-1]:
+                    mid.add(x)
+            sd['nu'] = [nus[0]] + sorted(mid) + [nus[-1]]
+        elif kind == 'shorter' and len(nus) >= 4:
+            drop = rng.randint(1, len(nus) - 2)
+            sd['nu'] = nus[:drop] + nus[drop + 1:]
+            sd['flux'] = [r[:drop] + r[drop + 1:] for r in sd['flux']]
+            sd['err'] = [r[:drop] + r[drop + 1:] for r in sd['err']]
+    pkg['v1only'] = True
+    return pkg
+
+
 def _ord(v, order):
     return list(v) if order == 'incr' else list(reversed(v))
 
@@ -114,7 +137,7 @@ def make_sed(pkg, n, unit='mJy'):
         s.wav = wav * u.micron
         s.nu = s.wav.to(u.Hz, equivalencies=u.spectral())
     else:
-        nu = np.array(_ord(pkg['nu'], sd['order']))
+        nu = np.array(_ord(sd.get('nu', pkg['nu']), sd['order']))     # per-SED grid (per-file packages only) or the shared one
         s.nu = nu * u.Hz
         s.wav = s.nu.to(u.micron, equivalencies=u.spectral())
     s.apertures = None if pkg['aps'] is None else np.array(pkg['aps']) * u.au
@@ -178,4 +201,4 @@ def filt_pts(pkg, k, norm_resp=None):
 def sedm(pkg, n, order=None):
     sd = pkg['seds'][n]
     o = order or sd['order']
-    return [key(n), [F(x) for x in _ord(pkg['nu'], o)], [[F(x) for x in _ord(row, o)] for row in sd['flux']], [[F(x) for x in _ord(row, o)] for row in sd['err']]]
+    return [key(n), [F(x) for x in _ord(sd.get('nu', pkg['nu']), o)], [[F(x) for x in _ord(row, o)] for row in sd['flux']], [[F(x) for x in _ord(row, o)] for row in sd['err']]]
